@@ -6,7 +6,7 @@ imputer or storage field), and no fallible event sits in a try whose handler abs
 Roles are inferred from the constructors (validators, annotations, tracker constructors).
 """
 from .. import ir
-from ..paths import paths, walk, root
+from ..paths import paths, walk, root, order_dataflow
 from .common import (explainer_classes, field_roles, estimate_fields, callback_fields, mutating_methods)
 
 META = {
@@ -136,6 +136,9 @@ def check(run):
                             found.setdefault(key, (committed, ev))
                     elif k == "commit" and committed is None:
                         committed = ev
+            # fixpoint dataflow over the effect tree (all loop iteration counts); must agree with the paths
+            for committed, ev in order_dataflow(s.events, lambda e: classify(e, est, cb, mutators)):
+                found.setdefault((id(committed), id(ev)), (committed, ev))
             n_fallible += len(fall_sites)
             run.analysed["call_sites"] += len(fall_sites)
             if not found:
